@@ -12,6 +12,7 @@
  *  -DVALID_ONLY : C02 flavour, assume the reference decodes the bytes up to an end-of-block code.
  *  default      : C06 flavour, arbitrary bytes.
  */
+#define IC_LOOP_MEMCPY
 #include "harness/inflate_common/inflate_common.h"
 
 #ifndef N
@@ -20,9 +21,16 @@
 #ifndef AVAIL_OUT
 #define AVAIL_OUT 3
 #endif
+/* Arena bytes in front of the output window, and the largest "reach before the start of output"
+ * (distance minus bytes produced) the query admits.  A 32 KiB + 258 arena as planned in DESIGN 3.4
+ * is out of reach (measured: N=2, > 17 GB); with PRE = 256 every distance reachable with N <= 2
+ * input bytes (<= 64) is covered exactly, for N >= 3 inputs that attempt to reach further back than
+ * DLIM bytes before the start of output are EXCLUDED by assumption (their only correct outcomes
+ * are INVALID_LOOKBACK; CBMC's pointer model cannot evaluate the look-back guard for them). */
 #ifndef PRE
-#define PRE (32768 + 258)
+#define PRE 256
 #endif
+#define DLIM PRE
 /* The reference gets room for one byte more than the window: enough to tell "fits" from "does not
  * fit" (then the only correct answer is OUT_OVERFLOW with the window filled) while keeping its
  * match-copy loop short (a 600-byte capacity made symbolic execution run > 15 min for N=1). */
@@ -31,12 +39,21 @@
 struct inputs {
         uint8_t in[N];
         uint8_t bfinal;
+        uint8_t ext[2]; /* arbitrary continuation of a truncated input (oracle only, see below) */
 };
 DECLARE_INPUTS
 
 static struct inflate_state st;
 static uint8_t arena[PRE + AVAIL_OUT + 8];
-static uint8_t ref_out[REFCAP];
+static uint8_t ref_out[REFCAP], ref_out2[REFCAP];
+
+static int
+run_ref(struct rfc_st *r, const uint8_t *in, size_t nbytes, uint8_t *o, const uint8_t *dict, size_t dict_len)
+{
+        r->in = in, r->in_bits = nbytes * 8, r->pos = 0, r->out = o, r->out_cap = REFCAP, r->out_len = 0;
+        r->dict = dict, r->dict_len = dict_len, r->eof = 0, r->max_dist = 0, r->nmatches = 0;
+        return rfc_codes(r, 1, 0, 0);
+}
 
 void
 harness(void)
@@ -47,9 +64,27 @@ harness(void)
         VASSUME(I.bfinal <= 1);
 
         /* reference: the same bytes as the body of a fixed-Huffman block, unlimited output */
-        r.in = I.in, r.in_bits = N * 8, r.pos = 0, r.out = ref_out, r.out_cap = REFCAP, r.out_len = 0;
-        r.dict = 0, r.dict_len = 0, r.eof = 0, r.max_dist = 0, r.nmatches = 0;
-        int rs = rfc_codes(&r, 1, 0, 0);
+        int rs = run_ref(&r, I.in, N, ref_out, 0, 0);
+#if N >= 3
+        {       /* exclusion described at PRE/DLIM: with DLIM zero bytes of pretend history the reference
+                 * must not hit a distance error */
+                struct rfc_st rd;
+                VASSUME(run_ref(&rd, I.in, N, ref_out2, arena + PRE - DLIM, DLIM) != RFC_BAD_DIST);
+        }
+#endif
+        /* A truncated input may already be doomed: the bits present only continue to undefined
+         * symbols (lit/len 1100011x = 286/287, distance 1111x = 30/31, one bit missing).  Then both
+         * END_INPUT and INVALID_SYMBOL are defensible.  `doomed` is evaluated for an ARBITRARY
+         * continuation ext[], i.e. INVALID_SYMBOL is accepted only if no continuation is valid. */
+        int doomed = 0;
+        if (rs == RFC_TRUNCATED) {
+                uint8_t in2[N + 2];
+                struct rfc_st r2;
+                for (int i = 0; i < N; i++)
+                        in2[i] = I.in[i];
+                in2[N] = I.ext[0], in2[N + 1] = I.ext[1];
+                doomed = run_ref(&r2, in2, N + 2, ref_out2, 0, 0) == RFC_BAD_SYMBOL && r2.pos <= N * 8 + 1;
+        }
 #ifdef VALID_ONLY
         VASSUME(rs == RFC_OK);
 #endif
@@ -118,9 +153,11 @@ harness(void)
         }
         if (rs == RFC_TRUNCATED) {
                 if (r.out_len <= AVAIL_OUT)
-                        VASSERT(ret == ISAL_END_INPUT, "input ends inside a symbol => ISAL_END_INPUT");
+                        VASSERT(ret == ISAL_END_INPUT || (doomed && ret == ISAL_INVALID_SYMBOL),
+                                "input ends inside a symbol => ISAL_END_INPUT (INVALID_SYMBOL only if every continuation is undefined)");
                 else
-                        VASSERT(ret == ISAL_END_INPUT || ret == ISAL_OUT_OVERFLOW, "truncated after the window filled");
+                        VASSERT(ret == ISAL_END_INPUT || ret == ISAL_OUT_OVERFLOW || (doomed && ret == ISAL_INVALID_SYMBOL),
+                                "truncated after the window filled");
                 if (ret == ISAL_END_INPUT)
                         VASSERT(st.read_in_length >= 0 && ic_bitpos(&st, I.in) <= N * 8 && st.block_state == ISAL_BLOCK_CODED,
                                 "END_INPUT: bit buffer rolled back to a symbol boundary, block still open");
